@@ -144,6 +144,9 @@ return {
 	twice: func() { a.inc(); return a.inc() },
 	boom: func(msg) { throw msg },
 }`},
+	// sources of size zero and of white space only
+	{"modEmpty", ""},
+	{"modBlank", "\n\n"},
 }
 
 func compile(src string, mm *ugo.ModuleMap, noOpt bool, limit int) (*ugo.Bytecode, error) {
